@@ -4,7 +4,7 @@
 Streams (formats in harness/h_C18.cpp):
   collapse <hexpath>
   lookup   <tree> <hexaddr;...> <hexname;...>
-  search   <tree> <hexloc> <hexneedle> <opt> <bufsize>
+  search   <tree> <hexloc> <hexneedle> <opt> <bufsize> <reply_with_query>
 The Spec oracle below is written from the property text over the generated
 tree / path; it does not use the Coq model."""
 import itertools, struct
@@ -30,7 +30,7 @@ ASSUMPTIONS = ["collapse: the path is absolute (starts with '/'); components may
                "characters, sub-tree names end in '/', leaf names carry at most one '#'; no concrete sibling name is a "
                "prefix of another (the property's own condition, read over the expansions of '#N')",
                "search: types/args buffers large enough for the addressed table (documented precondition of path_search); "
-               "reply_with_query = false; metadata blocks in the rMap/rProp/rDoc layout, NULL or \"\"; port names non-empty"]
+               "metadata blocks in the rMap/rProp/rDoc layout, NULL or \"\"; port names non-empty"]
 
 # ------------------------------------------------------------------------------------
 def spec_collapse(p):
@@ -88,9 +88,11 @@ def parse_entries(field):
 def osc_pad(b):
     return b + b"\0" * (4 - len(b) % 4)
 
-def spec_reply(entries):
-    tags = b"," + b"sb" * len(entries)
+def spec_reply(entries, query=None):
+    tags = b"," + (b"ss" if query else b"") + b"sb" * len(entries)
     m = osc_pad(b"/paths") + osc_pad(tags)
+    for q in query or ():
+        m += osc_pad(q)
     for n, l, d in entries:
         m += osc_pad(n)
         m += struct.pack(">i", l) + (d or b"") + b"\0" * ((4 - l % 4) % 4)
@@ -178,8 +180,10 @@ def gen(rng, tier, dist):
             needle = rng.choice(cands)
             for opt in (0, 1, 2):
                 bufsize = rng.choice([4096, 4096, 4096, 64, 16, 0])
-                out.append("search %s %s %s %d %d" % (et, hx(loc), hx(needle), opt, bufsize))
+                rwq = 1 if rng.random() < 0.3 else 0
+                out.append("search %s %s %s %d %d %d" % (et, hx(loc), hx(needle), opt, bufsize, rwq))
                 bump(dist, "search-opt-%d" % opt)
+                bump(dist, "search-reply-with-query", rwq)
     return out
 
 def resolve(t, loc):
@@ -238,22 +242,24 @@ def spec_check(case, impl):
         return None
     if f[0] == "search":
         t = pc.dec_tree(f[1])
-        loc, needle, opt, bufsize = unhx(f[2]), unhx(f[3]), int(f[4]), int(f[5])
+        loc, needle, opt, bufsize, rwq = unhx(f[2]), unhx(f[3]), int(f[4]), int(f[5]), f[6] == "1"
         r = resolve(t, loc)
         if r is None or not r[1]:
             return None
         if any(not p['name'] for p in r[0]):
             return None
-        if not impl.startswith("n="):
+        if not impl.startswith("q="):
             return "search: no result (%s)" % impl[:100]
         want = canon_entries(spec_search(r[0], needle, opt))
         m = dict(x.split("=", 1) for x in impl.split(" "))
         got = canon_entries(parse_entries(m["e"]))
+        if m["q"] != ("%s:%s" % (hx(loc), hx(needle)) if rwq else "N"):
+            return "search-query: the reply does not start with the two query strings (%s)" % m["q"]
         if got != want:
             return "search-%d: location %r needle %r returned %r, the children give %r" % (opt, loc, needle, got, want)
         # the reply message: well-formed, carries exactly those entries (in the order the
         # first overload reported them: both run the same deterministic sort)
-        msg = spec_reply(parse_entries(m["e"]))
+        msg = spec_reply(parse_entries(m["e"]), (loc, needle) if rwq else None)
         ret, hexm = m["msg"].split(":")
         if len(msg) <= bufsize:
             if int(ret) != len(msg) or unhx(hexm) != msg:
@@ -265,16 +271,16 @@ def spec_check(case, impl):
 
 def canon(case, line):
     f = case.split(" ")
-    if f[0] == "search" and line.startswith("n="):
+    if f[0] == "search" and line.startswith("q="):
         m = dict(x.split("=", 1) for x in line.split(" "))
         raw = parse_entries(m["e"])
         es = canon_entries(raw)
         ret, hexm = m["msg"].split(":")
         if len({e[0] for e in es}) == len(es):
-            return "n=%s e=%r msg=%s:%s" % (m["n"], es, ret, hexm)
+            return "q=%s n=%s e=%r msg=%s:%s" % (m["q"], m["n"], es, ret, hexm)
         # equal names with different metadata came in another order (std::sort is not
         # stable): compare the entries as a canonical list and the message by size
-        return "n=%s e=%r msg=%s" % (m["n"], es, ret)
+        return "q=%s n=%s e=%r msg=%s" % (m["q"], m["n"], es, ret)
     return line
 
 def nontrivial(case, impl):
@@ -284,7 +290,7 @@ def nontrivial(case, impl):
     if f[0] == "lookup":
         return ",1," in f[1] or "23" in f[1]
     if f[0] == "search":
-        return impl.startswith("n=") and int(impl.split(" ")[0][2:]) >= 2
+        return impl.startswith("q=") and int(impl.split(" ")[1][2:]) >= 2
     return False
 
 def classify(case, impl, failure):
